@@ -1,3 +1,5 @@
+//go:build all || c12 || c20
+
 package props
 
 import (
